@@ -133,10 +133,18 @@ def dump(o, ids, depth=0, seen=frozenset()):
     return "<%s>" % type(o).__name__
 
 
-def victim_state(n):
+def nic_counters(n):
+    ids = H.Ids()
+    return tuple((port, dump(nic.traffic, ids), dump(nic.nmne, ids)) for port, nic in n.network_interface.items())
+
+
+def victim_state(u):
     """Everything on the victim an attack could touch, as {component name: canonical value}."""
+    n = u.b
     ids = H.Ids()
     st = {}
+    # what the victim's interfaces had counted when the last step ended (an agent observes them there; pre_timestep zeroes them)
+    st["nic_counters_at_end_of_last_step"] = u.eos
     st["node"] = (n.operating_state.name, n.config.start_up_countdown, n.config.shut_down_countdown, n.config.is_resetting,
                   n.node_scan_countdown, n.red_scan_countdown)
     st["node_canon"] = H.node_canon(n, ids)
@@ -188,7 +196,8 @@ class Mon:
         self.denied = {}      # id(frame) -> (frame, node, list name)   (the frame is kept alive: ids are not reused)
         self.stack = []       # receive_frame calls in progress on routers/firewalls
         self.viols = []
-        self.st = {"verdicts": 0, "denied": 0, "permitted": 0, "mid_frames": 0, "mid_sends": 0}
+        self.victim = None
+        self.st = {"verdicts": 0, "denied": 0, "permitted": 0, "mid_frames": 0, "mid_sends": 0, "victim_frames": 0}
 
     def add(self, sig, detail):
         self.viols.append(violation("denied_frame_not_processed", sig, detail))
@@ -313,6 +322,18 @@ def _w_send(orig):
     return w
 
 
+def _w_nic_receive(orig):
+    def w(self, frame, *a, **k):
+        r = orig(self, frame, *a, **k)
+        m = _MON
+        if m is not None and r and getattr(self, "_connected_node", None) is m.victim:
+            m.st["victim_frames"] += 1  # a frame was accepted by the victim's interface
+        return r
+
+    w._c06_orig = orig
+    return w
+
+
 def _w_sm_receive(orig):
     def w(self, frame, from_network_interface, *a, **k):
         m = _MON
@@ -360,6 +381,7 @@ def install_monitors():
         wrap(cls, "receive_frame", _w_mid_receive)
     for cls in (WiredNetworkInterface, RouterInterface, NIC, SwitchPort):
         wrap(cls, "send_frame", _w_send)
+    wrap(NIC, "receive_frame", _w_nic_receive)
     wrap(SessionManager, "receive_frame", _w_sm_receive)
     wrap(SoftwareManager, "receive_payload_from_session_manager", _w_swm_receive)
     _INSTALLED = True
@@ -479,8 +501,10 @@ def build(cfg):
             mon.acl_owner[id(getattr(m, ln + "_acl"))] = (m, ln)
     elif isinstance(m, Router):
         mon.acl_owner[id(m.acl)] = (m, "acl")
+    mon.victim = b
     u.mon = mon
     u.warm = []
+    u.eos = ()
     s.start()
     return u
 
@@ -532,7 +556,11 @@ def do_event(u, ev):
     _MON = u.mon
     try:
         if k == "tick":
-            u.s.tick()
+            s = u.s
+            s.sim.apply_timestep(s.t)
+            u.eos = nic_counters(u.b)
+            s.t += 1
+            s.sim.pre_timestep(s.t)
             return "tick", False
         if k == "ping":
             return bool(u.a.ping(u.b_ip, pings=1)), False
@@ -675,6 +703,17 @@ def block_kind(cfg):
     return b[0]
 
 
+def block_mech(cfg):
+    """Coarser than block_kind: device + mechanism (+ which list), without the rule shape."""
+    b = cfg["block"]
+    k = block_kind(cfg)
+    if b[0] == "acl":
+        return k.rsplit(":", 1)[0]
+    if b[0] == "link":
+        return k.rsplit(":", 1)[0]
+    return k
+
+
 # ----------------------------------------------------------------------------------------------- tree exploration
 class Agg:
     """Picklable statistics of a subtree."""
@@ -706,7 +745,9 @@ class Agg:
             self.effects[k] = self.effects.get(k, False) or n
         self.outcomes |= o.outcomes
         for v in o.viols:
-            self.add_viol(v)
+            self._keep(v)
+        for k, n in o.nsig.items():
+            self.nsig[k] = self.nsig.get(k, 0) + n
         self.capped = self.capped or o.capped
         if o.deepest is not None and (self.deepest is None or len(o.deepest) > len(self.deepest)):
             self.deepest = o.deepest
@@ -714,8 +755,18 @@ class Agg:
     def add_viol(self, v):
         k = (v["clause"], v["signature"])
         self.nsig[k] = self.nsig.get(k, 0) + 1
-        if self.nsig[k] <= KEEP:
+        self._keep(v)
+
+    def _keep(self, v):
+        """Keep the KEEP shortest histories of a signature (the tree is walked depth-first)."""
+        k = (v["clause"], v["signature"])
+        same = [x for x in self.viols if (x["clause"], x["signature"]) == k]
+        if len(same) < KEEP:
             self.viols.append(v)
+            return
+        worst = max(same, key=lambda x: len(x.get("history") or []))
+        if len(v.get("history") or []) < len(worst.get("history") or []):
+            self.viols[self.viols.index(worst)] = v
 
 
 def _ticks(hist):
@@ -724,7 +775,7 @@ def _ticks(hist):
 
 def reference_states(u, horizon):
     """Victim states after 0..horizon idle ticks (None from the first tick that raises on); runs in a forked child."""
-    out = [victim_state(u.b)]
+    out = [(victim_state(u), u.mon.st["victim_frames"])]
     mv = []
     for _ in range(horizon):
         o, raised = do_event(u, ["tick"])
@@ -732,7 +783,7 @@ def reference_states(u, horizon):
         if raised:
             out += [None] * (horizon - len(out) + 1)
             break
-        out.append(victim_state(u.b))
+        out.append((victim_state(u), u.mon.st["victim_frames"]))
     return out, mv, dict(u.mon.st)
 
 
@@ -743,16 +794,23 @@ def judge(u, ref, hist, ev, outcome, raised, phase):
     want = ref[n] if n < len(ref) else None
     if want is None:
         return None, []
-    got = victim_state(u.b)
+    want, want_frames = want
+    got = victim_state(u)
     ch = _diff(want, got)
     if not ch:
         return False, []
-    gen = sorted({c if not c.startswith("nic") else "nic" for c in ch})
-    sig = "%s|%s|%s" % (block_kind(cfg), ev[0] if phase == "event" else ev[0] + "+settle", "+".join(gen))
+    frames = u.mon.st["victim_frames"] - want_frames
+    if frames > 0:
+        # the defect is in the network path (which device/mechanism let frames through), not in the attack that found it
+        sig = "%s|frames-reached-victim" % block_mech(cfg)
+    else:
+        # no frame crossed: the side channel is in the software the event runs, whatever the block mechanism
+        gen = sorted(c for c in ch if c != "node_canon") or ch
+        sig = "no-frame-reached-victim|%s|%s" % (ev[0], "+".join(gen))
     detail = "victim %s differs from the run in which the attacker idles for the same %d tick(s), after %s%s under block %s " \
-             "(%s, role %s, %s): %s" % (
+             "[%s] (%s, role %s, %s); %d frame(s) more than in the idle run were accepted by the victim's interface; changed: %s" % (
                  u.b_ip, n, [e[0] for e in hist + [ev]], " + %d settle ticks" % SETTLE if phase == "settle" else "",
-                 cfg["block"], cfg["topo"], cfg["role"], cfg["placement"],
+                 cfg["block"], block_kind(cfg), cfg["topo"], cfg["role"], cfg["placement"], frames,
                  "; ".join("%s %s" % (c, _first_diff(want.get(c), got.get(c))) for c in ch[:4]))
     clause = "non_interference" if phase == "event" else "non_interference_after_settle"
     return True, [violation(clause, sig, detail)]
@@ -881,14 +939,14 @@ def run_linear(cfg, history, event):
     control = cfg["block"][0] == "none"
     out = _annot(u.mon.drain(), cfg, [], None)
     if event is None:
-        return out + _annot(ref_viols, cfg, [], ["tick"]), engine.digest(victim_state(u.b))
+        return out + _annot(ref_viols, cfg, [], ["tick"]), engine.digest(victim_state(u))
     agg = Agg()
     hist = []
     for ev in events[:-1]:
         step(u, ref, hist, ev, Agg(), control)
         hist.append(ev)
     ok = step(u, ref, hist, events[-1], agg, control)
-    dg = engine.digest((victim_state(u.b), sorted(agg.outcomes)))
+    dg = engine.digest((victim_state(u), sorted(agg.outcomes)))
     if ok:
         settle(u, ref, events, agg, control)
     return out + agg.viols, dg
@@ -1013,8 +1071,9 @@ def run(tier, is_known):
     depth = 3 if thorough else 2
     budget = 1620.0 if thorough else 240.0
     t_end = t0 + budget
-    # the most expensive (deepest, warm) configurations first
-    items = [(c, d, t_end) for c, d in sorted(plan(tier), key=lambda cd: (-cd[1], cd[0]["placement"] != "warm"))]
+    # breadth before depth (should the time budget be hit, it cuts the deepest trees, not whole configurations); within one
+    # depth the most expensive (warm) configurations first
+    items = [(c, d, t_end) for c, d in sorted(plan(tier), key=lambda cd: (cd[0]["block"][0] != "none", cd[1], cd[0]["placement"] != "warm"))]
     tot = {"nodes": 0, "transitions": 0, "compared": 0, "skipped": 0}
     hist, raised, mon, effects, nsig = {}, {}, {}, {}, {}
     outcomes = set()
